@@ -570,6 +570,7 @@ func runC18TeardownInbound(t *testing.T, rng *rand.Rand, rec *sim.Rec, tier stri
 			b := wire.NewBuilder(wire.MethodRefresh, wire.ClassRequest, tid)
 			b.AddU32(wire.AttrLifetime, 0)
 			c.AddAuth(b)
+			m.Track(c, tid, wire.MethodRefresh) // (the response monitor must know the request)
 			_ = c.SendRaw(b.Bytes())
 		}
 	case "control-close":
@@ -786,7 +787,9 @@ func init() {
 				inBubble(t, func(t *testing.T) {
 					x := newC12(t, rng, rec, pick(rng, c12RTOs))
 					defer x.close()
-					switch rng.Intn(5) {
+					switch rng.Intn(6) {
+					case 4:
+						x.caseCloseDuringRtxWrite()
 					case 0:
 						x.caseConcurrent()
 					case 1:
